@@ -29,6 +29,7 @@ type Engine struct {
 	fieldIDs map[string]int
 	globalIDs map[string]int
 	byName   map[string]*types.Package
+	orphans  []orphan
 	loadErrs []string
 	overlay  map[string][]byte
 	replayTemplates map[string]*replayTemplate
@@ -247,7 +248,11 @@ func (e *Engine) load(dirs []string, extra []string) error {
 			}
 			fn := fns[c.Func]
 			if fn == nil {
-				return fmt.Errorf("%s:%d: contract for unknown function %q in %s", c.File, c.Line, c.Func, pkg.PkgPath)
+				// the function the contract was written on is gone (removed, renamed, a function
+				// literal folded away): nothing can be generated for it; reported per property as a
+				// failed obligation, so that the clauses it carried do not silently stop being checked
+				e.orphans = append(e.orphans, orphan{c, pkg.PkgPath})
+				continue
 			}
 			if _, dup := e.assumed[fn.String()]; dup {
 				return fmt.Errorf("%s:%d: %s has both a verified contract here and an assumed contract in /verif/contracts/assumed: callers would silently lose the assumed clauses; keep one", c.File, c.Line, fn.String())
@@ -257,6 +262,11 @@ func (e *Engine) load(dirs []string, extra []string) error {
 		}
 	}
 	return nil
+}
+
+type orphan struct {
+	c   *Contract
+	pkg string
 }
 
 func (e *Engine) pkgByName(n string) *types.Package { return e.byName[n] }
